@@ -205,6 +205,15 @@ def S5(ctx):
         "rt::rwlock::RwLock::post_acquire_read_lock": "Write",
         "rt::mpsc::Channel::recv": "MsgRecv",
     }
+    # which acquiring operation(s) reach each block site (so that a shared helper inherits the filter of its callers)
+    reached_from = {}
+    for root_fn in want_action:
+        r = prog.ident(root_fn)
+        if r is None:
+            ctx.missing("S5", root_fn)
+            continue
+        for i in prog.reach([r]):
+            reached_from.setdefault(prog.insts[i].key, set()).add(root_fn)
     for s in _transition_sites(prog, "set_blocked"):
         body = prog.fns[s["fn"]].body
         if receiver_is_active(body, s["term"]):
@@ -213,6 +222,20 @@ def S5(ctx):
         ctx.touch(s["fn"], 1)
         recv = canon(strip(arg_expr(body, s["term"], 0)))
         anchor = enclosing_fn(s["fn"])
+        roots = reached_from.get(s["fn"], set())
+        if anchor not in want_action and roots:
+            # a helper shared by several acquire paths: it needs the (strongest) filter of every path that reaches it
+            anchor_roots = sorted(roots)
+            for rf in anchor_roots:
+                act_ = want_action[rf]
+                found_ = False
+                for (e, pol, val, sb) in guard_atoms(body, s["bb"]):
+                    if e[0] == "call" and e[1].endswith("PartialEq::eq") and pol is True and \
+                            mentions_call(e, "rt::object::Operation::action") and act_ in canon(e):
+                        found_ = True
+                if not found_:
+                    ctx.bad("S5", rf, "blocking of other threads on the path of %s (in helper %s) is not restricted to pending `%s` operations" %
+                            (rf.split("::")[-1], anchor.split("::")[-1], act_), site_str(prog, s["fn"], s["bb"]), detail="action")
         g = _object_eq_guard(prog, body, s["bb"], recv)
         if g is None:
             ctx.bad("S5", anchor, "another thread is marked Blocked without the guard "
@@ -577,7 +600,31 @@ def D2(ctx):
     ctx.floor("D2", n, 9, "4 blocking calls + notify + 4 state predicates")
 
 
+def S9(ctx):
+    """Wake / block loops visit every thread: after waking (or blocking) one thread the loop continues with the next
+    (no `break`, no `find`-first): otherwise waiters are woken in a fixed order / some are never examined."""
+    prog = ctx.prog
+    n = 0
+    for setter in ("set_runnable", "set_blocked"):
+        for s in _transition_sites(prog, setter):
+            body = prog.fns[s["fn"]].body
+            if receiver_is_active(body, s["term"]):
+                continue
+            fk = enclosing_fn(s["fn"])
+            if fk in (T + "::set_unparked", T + "::unpark"):
+                continue            # single, addressed thread
+            n += 1
+            ok, why = loop_continues_after(prog, s["inst"], s["bb"])
+            if ok:
+                ctx.ok("S9", "%s:%s" % (fk, setter), "loop continues over all threads", [site_str(prog, s["fn"], s["bb"])])
+            else:
+                ctx.bad("S9", fk, "%s is applied to the first matching thread only (%s): the remaining threads pending on this object are not "
+                        "%s; schedules in which another waiter proceeds first are lost or threads stay blocked" %
+                        (setter, why, "woken" if setter == "set_runnable" else "blocked"), site_str(prog, s["fn"], s["bb"]), detail=setter)
+    ctx.floor("S9", n, 8, "wake loops (mutex, rwlock, mpsc, notify, schedule) + block loops (mutex, rwlock x2, mpsc)")
+
+
 def run_all(ctx, which):
-    table = dict(S1=S1, S2=S2, S3=S3, S4=S4, S5=S5, S6=S6, S7=S7, S8=S8, D1=D1, D2=D2)
+    table = dict(S1=S1, S2=S2, S3=S3, S4=S4, S5=S5, S6=S6, S7=S7, S8=S8, S9=S9, D1=D1, D2=D2)
     for w in which:
         table[w](ctx)
